@@ -34,6 +34,11 @@ RULE = ("One feature with 1-2 scenarios of 1-3 steps. Every step function (befor
         "scenario's capture setup, which runs after that hook) or before the run x --logging-level {unset, NOTSET, DEBUG, WARNING} "
         "x root handlers {none, one user handler}, plus --logging-clear-handlers with nothing to clear and an empty "
         "--logging-filter= (every saved/restored quantity takes its falsy value) x 8 switches. "
+        "Emission dimension: every step and its hooks carry an emission profile {all six markers, nothing, stdout only, stderr only, one "
+        "ERROR record, only a DEBUG record (below the default capture level), only a record of logger 'other' (filtered out under "
+        "--logging-filter=-other/c18)}; step kinds setlvl / addh / rmh change the root logger's level / add a handler / remove the "
+        "user's handler inside the scenario; the special scenario is first, middle, last or all of a 3-scenario run, so empty stdout, "
+        "stderr and log buffers occur at every position; after every scenario no LoggingCapture of behave may sit on the root logger. "
         "Volume dimension: a passing step emits N stdout lines, N stderr lines and N log records before the failing step, "
         "N = capacity-1, capacity, capacity+1, 2*capacity+1 where capacity is read at run time from the real LoggingCapture "
         "handler object (logging.handlers.BufferingHandler capacity, the only size constant in behave/capture.py and "
@@ -47,6 +52,10 @@ ASSUMPTIONS = ["scenario hooks do not print (before_scenario runs before the per
                "with --no-logcapture and no handler configured, Python's logging.lastResort writes WARNING+ records to sys.stderr, so those markers follow the stderr channel",
                "sub-loggers of a name given to --logging-filter may or may not be captured/excluded: the option help says 'foo or foo.what.ever.sub', "
                "the project's features/logcapture.filter.feature specifies exact names only",
+               "what a step of the scenario itself did to the root logger (setLevel, addHandler, removeHandler) may at scenario end be either undone "
+               "(value before the scenario: behave's abandon() restores the level it saved) or left as the step set it (behave never "
+               "promises to undo user changes; handlers added by a step stay): both accepted; never accepted: behave's own "
+               "LoggingCapture handler still on the root logger after a scenario or after the run, or the capture level left behind",
                "duplicated markers inside a report are not flagged (statement: contains everything / nothing from other scenarios)",
                "KeyboardInterrupt raised inside a step hook is outside the alphabet (hook errors are Exception subclasses)",
                "child-process runs (thorough) compare marker sets/orders on the real pipes, not complete byte images (tracebacks, timings)"]
@@ -56,15 +65,29 @@ FAILING = ("fail", "error", "kbi", "hb", "ha", "xfail")
 OUTCOMES = PASSING + FAILING
 CHANS = ("O", "E", "LW", "LE", "LO", "LS")
 LOGSPEC = {"LW": ("c18", logging.WARNING), "LE": ("c18", logging.ERROR), "LO": ("other", logging.ERROR),
-           "VL": ("c18", logging.ERROR),
+           "VL": ("c18", logging.ERROR), "LD": ("c18", logging.DEBUG),
            "LS": ("c18.sub", logging.ERROR)}
 CHAN_NAME = {"O": "stdout", "E": "stderr", "LW": "logging", "LE": "logging", "LO": "logging", "LS": "logging",
-             "VO": "stdout", "VE": "stderr", "VL": "logging"}
+             "VO": "stdout", "VE": "stderr", "VL": "logging", "LD": "logging"}
 # VO/VE/VL = the i-th line / record of a "vol" step (volume dimension): <VL:s0k0v00017>
-MARK = re.compile(r"<(O|E|LW|LE|LO|LS|VO|VE|VL):s(\d+)k(\d+)(x?)([bsta]|v\d+)>")
+MARK = re.compile(r"<(O|E|LW|LE|LO|LS|LD|VO|VE|VL):s(\d+)k(\d+)(x?)([bsta]|v\d+)>")
 # volume dimension: N = mult * capacity + offset, capacity read from the real LoggingCapture handler object at run time
 VOLUMES = ((1, -1), (1, 0), (1, 1), (2, 1))
 USER_LEVEL = 25
+STEP_LEVEL = 35         # what the 'setlvl' step sets on the root logger inside a scenario
+# emission profiles ("what this step / these hooks emit"): step text "s0k0 pass qa" = step profile q, hook profile a
+PROFILES = {"a": CHANS, "q": (), "o": ("O",), "e": ("E",), "l": ("LE",),
+            "d": ("LD",),          # only a DEBUG record: below the default capture level
+            "f": ("LO",)}          # only a record of logger 'other': filtered out by --logging-filter=-other / =c18
+STATE_KINDS = ("setlvl", "addh", "rmh")     # passing steps that change the root logger inside the scenario
+
+
+def base(o):
+    return o.split()[0]
+
+
+def isfail(o):
+    return base(o) in FAILING
 
 # logging variants: args, user handler installed in before_scenario?, effective capture level, filter
 LOGVARS = {
@@ -141,7 +164,24 @@ def log_captured(chan, lv):
     return True if True in hit else (None if None in hit else False)
 
 
-def route(chan, sw, lv):
+def route(chan, sw, lv, env=None):
+    """env = (root level a step of this scenario set before the emission | None, user handler still on root?, extra handler?)"""
+    r = _route(chan, sw, lv)
+    if env is None or chan not in LOGSPEC:
+        return r
+    override, has_user, has_extra = env
+    if override is not None:
+        if LOGSPEC[chan][1] < override:
+            return "drop"                     # the scenario's own setLevel() gates the record before any handler
+        if not sw[2]:
+            r = _route(chan, sw, dict(lv, root=override))
+    if not sw[2] and r == "user" and not has_user:
+        # the step removed the user's handler: an added one gets it, else logging.lastResort -> sys.stderr
+        return "drop" if has_extra else ("cap" if sw[1] else "err")
+    return r
+
+
+def _route(chan, sw, lv):
     """-> 'cap' (must be in the failure report), 'cap?' (may be), 'out' / 'err' (sentinel), 'user' (user's handler), 'drop'"""
     cap_out, cap_err, cap_log = sw
     if chan in ("O", "VO"):
@@ -225,10 +265,12 @@ class IdentRecorder(object):
     def close(self): pass
 
 
-def emit_all(produced, sid, site):
-    for chan in CHANS:
+def emit_all(produced, sid, site, prof="a", envlog=None, env=None):
+    for chan in PROFILES[prof]:
         mk = "<%s:%s%s>" % (chan, sid, site)
         produced.append(mk)
+        if envlog is not None and chan in LOGSPEC:
+            envlog[mk] = env
         if chan == "O":
             print(mk)
         elif chan == "E":
@@ -273,9 +315,23 @@ def drive(scens, sw, lvname, vol=None):
     user = ListHandler()
     if lv.get("where") == "prerun" and lv["handler"]:
         root.addHandler(user)
-    obs = {"produced": [], "ident": [], "snap": [], "escaped": None, "verdict": None}
+    extra = ListHandler()
+    obs = {"produced": [], "ident": [], "snap": [], "escaped": None, "verdict": None, "env": {}}
     produced = obs["produced"]
+    envlog = obs["env"]
     snap = [None]
+    st = {"override": None, "has_user": bool(lv["handler"]), "extra": False}     # what the scenario's own steps did
+
+    def env():
+        return (st["override"], st["has_user"], st["extra"])
+
+    def emit(sid, site, prof):
+        emit_all(produced, sid, site, prof, envlog, env())
+
+    def parse(name):
+        parts = name.split()
+        prof = parts[2] if len(parts) > 2 else "aa"
+        return parts[0], parts[1], prof[0], prof[1]
 
     def note(where):
         obs["ident"].append((where, sys.stdout is s_out, sys.stderr is s_err))
@@ -287,8 +343,15 @@ def drive(scens, sw, lvname, vol=None):
         if snap[0] is not None:
             hs, lvl = snapshot()
             want_h, want_l = snap[0]
-            obs["snap"].append((where, len(hs) == len(want_h) and all(a is b for a, b in zip(hs, want_h)),
-                                [type(h).__name__ for h in hs], [type(h).__name__ for h in want_h], lvl, want_l))
+            # accept-set, per handler (order is not compared): present as before the scenario, or as the scenario's own
+            # steps left it
+            left_h = [h for h in want_h if h is not user or st["has_user"]] + ([extra] if st["extra"] else [])
+            cnt = lambda xs, h: sum(1 for x in xs if x is h)     # noqa
+            ok_h = all(cnt(hs, h) in (cnt(want_h, h), cnt(left_h, h)) for h in hs + want_h + left_h)
+            n_lc = sum(1 for h in root.handlers if isinstance(h, LoggingCapture))
+            obs["snap"].append((where, ok_h,
+                                [type(h).__name__ for h in hs], [type(h).__name__ for h in want_h], lvl, want_l,
+                                st["override"], n_lc))
             snap[0] = None
 
     sys.stdout, sys.stderr = s_out, s_err
@@ -298,11 +361,21 @@ def drive(scens, sw, lvname, vol=None):
         feat = m["parse_feature"](render(scens), filename="c18.feature")
 
         def make_step(kind):
-            def step_impl(ctx, sid):
-                emit_all(produced, sid, "s")
+            def step_impl(ctx, sid, prof="aa"):
+                emit(sid, "s", prof[0])
                 if kind in ("exec", "xfail"):
-                    ctx.execute_steps(u"Given %sx %s" % (sid, "pass" if kind == "exec" else "fail"))
-                    emit_all(produced, sid, "t")
+                    ctx.execute_steps(u"Given %sx %s%s" % (sid, "pass" if kind == "exec" else "fail",
+                                                           "" if prof == "aa" else " " + prof))
+                    emit(sid, "t", prof[0])
+                if kind == "setlvl":
+                    root.setLevel(STEP_LEVEL)
+                    st["override"] = STEP_LEVEL
+                if kind == "addh":
+                    root.addHandler(extra)
+                    st["extra"] = True
+                if kind == "rmh":
+                    root.removeHandler(user)
+                    st["has_user"] = False
                 if kind == "vol":
                     # capacity of the real handler object that is capturing right now (fresh instance if none is)
                     lc = getattr(ctx, "log_capture", None) if sw[2] else None
@@ -327,16 +400,20 @@ def drive(scens, sw, lvname, vol=None):
             step_impl.__name__ = "step_" + kind
             return step_impl
 
-        for kind in OUTCOMES + ("vol",):
+        for kind in OUTCOMES + ("vol",) + STATE_KINDS:
             reg.add_step_definition("step", "{sid:w} %s" % kind, make_step(kind))
+            reg.add_step_definition("step", "{sid:w} %s {prof:w}" % kind, make_step(kind))
 
         def before_scenario(ctx, scenario):
             check_snapshot("before_scenario")
             note("before_scenario")
+            if extra in root.handlers:
+                root.removeHandler(extra)
             if lv.get("where") != "prerun":
                 if lv["handler"] and user not in root.handlers:
                     root.addHandler(user)
                 root.setLevel(lv.get("root", USER_LEVEL))
+            st.update(override=None, has_user=user in root.handlers, extra=False)
             snap[0] = snapshot()
 
         def before_all(ctx):
@@ -350,14 +427,14 @@ def drive(scens, sw, lvname, vol=None):
             note("after_feature")
 
         def before_step(ctx, step):
-            sid, kind = step.name.split()
-            emit_all(produced, sid, "b")
+            sid, kind, _, hp = parse(step.name)
+            emit(sid, "b", hp)
             if kind == "hb":
                 raise HookFault("before_step hook fault")
 
         def after_step(ctx, step):
-            sid, kind = step.name.split()
-            emit_all(produced, sid, "a")
+            sid, kind, _, hp = parse(step.name)
+            emit(sid, "a", hp)
             if kind == "ha":
                 raise HookFault("after_step hook fault")
 
@@ -392,7 +469,7 @@ def drive(scens, sw, lvname, vol=None):
 def judge(scens, sw, lvname, obs, v):
     lv = logvar(lvname)
     produced = obs["produced"]
-    rt = {mk: route(MARK.match(mk).group(1), sw, lv) for mk in produced}
+    rt = {mk: route(MARK.match(mk).group(1), sw, lv, obs["env"].get(mk)) for mk in produced}
     chan_of = lambda mk: CHAN_NAME[MARK.match(mk).group(1)]     # noqa
     sws = "".join("1" if x else "0" for x in sw)
 
@@ -425,7 +502,7 @@ def judge(scens, sw, lvname, obs, v):
     optional = set()
     reported = set()
     for si, seq in enumerate(scens):
-        fk = [ki for ki, o in enumerate(seq) if o in FAILING]
+        fk = [ki for ki, o in enumerate(seq) if isfail(o)]
         fk = fk[0] if fk else None
         for ki, o in enumerate(seq):
             status, emsg = obs["steps"][si][ki]
@@ -479,7 +556,7 @@ def judge(scens, sw, lvname, obs, v):
                       "switches %s: scenario S%d.captured contains %s" % (sws, si, foreign[:6])))
 
     # (3) formatter outputs
-    passing = set(si for si, seq in enumerate(scens) if not any(o in FAILING for o in seq))
+    passing = set(si for si, seq in enumerate(scens) if not any(isfail(o) for o in seq))
     for fname in ("plain", "pretty"):
         got = set(markers(obs[fname]))
         shown_pass = [mk for mk in got if mkey(mk)[0] in passing]
@@ -503,8 +580,8 @@ def judge(scens, sw, lvname, obs, v):
         after = "-"
         for seq in scens:
             for o in seq:
-                if o in FAILING:
-                    after = o
+                if isfail(o):
+                    after = base(o)
                     break
             if after != "-":
                 break
@@ -516,7 +593,13 @@ def judge(scens, sw, lvname, obs, v):
                   "switches %s: run() raised %s" % (sws, obs["escaped"])))
 
     # (5) root logger restored at scenario end
-    for where, same_h, hs, want_h, lvl, want_l in obs["snap"]:
+    for where, same_h, hs, want_h, lvl, want_l, step_level, n_lc in obs["snap"]:
+        if n_lc:
+            v.append(({"subcheck": "logging", "clause": "capture-handler-left-on-root-after-scenario"},
+                      "switches %s, %s: at %s (after a scenario ended) %d LoggingCapture handler(s) of behave still sit on "
+                      "the root logger" % (sws, lvname, where, n_lc)))
+        if lvl == step_level and step_level is not None:
+            lvl = want_l            # left as the scenario's own step set it: accepted (see ASSUMPTIONS)
         if not same_h:
             v.append(({"subcheck": "logging", "clause": "root-handlers-not-restored", "clear_handlers": str(lv["clear"])},
                       "switches %s, %s: at %s root handlers (non-behave) are %s, before the scenario %s"
@@ -538,15 +621,23 @@ def run_case(case):
     rt = judge(scens, sw, lvname, obs, v)
     executed = set(mkey(mk) for mk in obs["produced"])
     failing_executed = any((si, ki) in executed for si, seq in enumerate(scens) for ki, o in enumerate(seq)
-                           if o in FAILING)
+                           if isfail(o))
     nt = digest(case) if (any(sw) and failing_executed) else None
     stat = tuple(sorted(set(s for sc in obs["steps"] for s, _ in sc)))
+    # vacuity bookkeeping: executed scenarios whose capture buffer of a captured channel stayed empty
+    classes = set(rt.values())
+    for si, (sstat, _) in enumerate(obs["scen"]):
+        if sstat in ("passed", "failed", "error"):
+            mine = [mk for mk in obs["produced"] if mkey(mk)[0] == si and rt[mk] in ("cap", "cap?")]
+            for ci, cname in enumerate(("stdout", "stderr", "logging")):
+                if sw[ci] and not any(CHAN_NAME[MARK.match(mk).group(1)] == cname for mk in mine):
+                    classes.add("empty-%s-buffer@%s" % (cname, "first" if si == 0 else ("last" if si == len(scens) - 1 else "middle")))
     dg = (obs["verdict"], obs["escaped"], obs["produced"], obs["ident"],
-          [(w, a, l1, l2) for (w, a, _, _, l1, l2) in obs["snap"]],
+          [(w, a, l1, l2, n) for (w, a, _, _, l1, l2, _, n) in obs["snap"]],
           [[(s, sorted(set(markers(e)))) for s, e in sc] for sc in obs["steps"]],
           markers(obs["out"]), markers(obs["err"]), obs["user"], sorted(set(markers(obs["plain"]))),
           sorted(set(markers(obs["pretty"]))))
-    return {"v": v, "nt": nt, "out": (sw, lvname, stat, tuple(sorted(set(rt.values())))), "dg": dg}
+    return {"v": v, "nt": nt, "out": (sw, lvname, stat, tuple(sorted(classes))), "dg": dg}
 
 
 def volume_case(case):
@@ -563,7 +654,7 @@ def volume_case(case):
     for si, seq in enumerate(scens):
         if "vol" not in seq or cap is None or not n or n < 1:
             continue
-        fk = [ki for ki, o in enumerate(seq) if o in FAILING][0]
+        fk = [ki for ki, o in enumerate(seq) if isfail(o)][0]
         vk = seq.index("vol")
         emsg = obs["steps"][si][fk][1] or u""
         for chan in ("VO", "VE", "VL"):
@@ -703,13 +794,13 @@ def child_case(case):
         return {"v": v, "dg": None, "out": ("child", sw, "broken")}
     must_report = set()
     for si, seq in enumerate(scens):
-        fk = [ki for ki, o in enumerate(seq) if o in FAILING]
+        fk = [ki for ki, o in enumerate(seq) if isfail(o)]
         if fk and any(mkey(mk) == (si, fk[0]) for mk in produced):
             must_report |= set(mk for mk in produced if mkey(mk)[0] == si and mkey(mk)[1] <= fk[0] and rt[mk] == "cap")
     got_out, got_err = markers(out), markers(err)
     scope = set()
     for si, seq in enumerate(scens):
-        fk = [ki for ki, o in enumerate(seq) if o in FAILING]
+        fk = [ki for ki, o in enumerate(seq) if isfail(o)]
         if fk:
             scope |= set(mk for mk in opt if mkey(mk)[0] == si and mkey(mk)[1] <= fk[0])
     lost = scope - set(got_err) - set(got_out)
@@ -755,7 +846,7 @@ def seqs(maxlen):
 def canonical(maxlen):
     """sequences whose steps after the first failing one (never executed) are all 'pass'"""
     for s in seqs(maxlen):
-        fk = [i for i, o in enumerate(s) if o in FAILING]
+        fk = [i for i, o in enumerate(s) if isfail(o)]
         if not fk or all(o == "pass" for o in s[fk[0] + 1:]):
             yield s
 
@@ -825,6 +916,33 @@ def rootstate_cases(tier):
                 yield (prog, sw, lvname)
 
 
+def emission_cases(tier):
+    """what each step / its hooks emit (incl. nothing at all, only below the capture level, only a filtered-out logger)
+    and steps that change the root logger inside the scenario; the special scenario is first, middle, last or all of a
+    3-scenario run, so that scenarios with an EMPTY capture buffer (per channel) are followed / preceded by others"""
+    quick = tier == "quick"
+    if quick:
+        profs = ("qq", "oq", "eq", "lq", "dd", "ff", "qa", "aq")
+        lvs = ("handler", "level", "filter-", "combo")
+    else:
+        profs = tuple(a + b for a in "aqoeldf" for b in "aq") + ("qd", "qf", "dd", "ff", "dq"[::-1])
+        profs = tuple(sorted(set(profs) - {"aa"}))
+        lvs = ("handler", "nohandler", "setup_logging", "level", "filter+", "filter-", "clear", "combo",
+               "rs|hook|0|unset|1|0|-", "rs|hook|0|WARNING|0|0|empty")
+    loud_f, loud_p = ("fail",), ("pass",)
+    for lvname in lvs:
+        for pp in profs:
+            specials = [("pass " + pp,), ("fail " + pp,), ("setlvl " + pp, "pass " + pp), ("setlvl " + pp, "fail " + pp),
+                        ("addh " + pp,), ("rmh " + pp,)]
+            if not quick:
+                specials += [("exec " + pp,), ("xfail " + pp,), ("hb " + pp,), ("ha " + pp,), ("kbi " + pp,),
+                             ("pass " + pp, "error " + pp), ("addh " + pp, "rmh " + pp, "fail " + pp)]
+            for x in specials:
+                for prog in ((x, loud_f, loud_p), (loud_p, x, loud_f), (loud_f, loud_p, x), (x, x, x)):
+                    for sw in SWITCHES:
+                        yield (prog, sw, lvname)
+
+
 def run(ctx):
     if ctx.quick:
         ctx.bounds = {"scenarios": "1-2", "steps_per_scenario": "all outcome sequences of length <= 2 (second scenario <= 1 when the first has 2, and vice versa)",
@@ -836,9 +954,15 @@ def run(ctx):
     ctx.bounds["root_logger_state"] = {"root_level": list(ROOT_LEVELS), "config_logging_level": sorted(CONFIG_LEVELS),
                                        "handlers": ["none", "one user handler"], "set": ["before_scenario hook", "before the run"],
                                        "falsy": ["level 0", "no handler with --logging-clear-handlers", "--logging-filter= (empty)"]}
+    ctx.bounds["emission_profiles"] = {"step x hooks": "8 pairs (quick) / 17 pairs (thorough) out of {all, nothing, stdout only, stderr only, "
+                                       "one log record, only a DEBUG record, only a filtered-out logger}",
+                                       "root_logger_changing_steps": list(STATE_KINDS), "scenarios": 3,
+                                       "position_of_special_scenario": ["first", "middle", "last", "all"]}
     ctx.bounds["volume_N"] = ["%d*capacity%+d" % mo for mo in VOLUMES]
     ctx.sweep(run_case, cases(ctx.tier), chunk=48, name="outcome sequences x 8 capture switches x logging variants")
     ctx.sweep(volume_case, volume_cases(ctx.tier), chunk=2, name="volume: N lines/records around the log handler capacity")
+    ctx.sweep(run_case, emission_cases(ctx.tier), chunk=48,
+              name="emission profiles (silent / below level / filtered-out) and steps changing the root logger, 3 scenarios")
     ctx.sweep(run_case, rootstate_cases(ctx.tier), chunk=48,
               name="initial root logger level {NOTSET,DEBUG,WARNING,CRITICAL} x config level x handlers {none,user}")
     if ctx.quick:
@@ -874,6 +998,10 @@ def run(ctx):
             for cl in ("unset", "NOTSET", "DEBUG", "WARNING"):
                 ctx.guard((where, rl, cl, "0") in rs_seen and (where, rl, cl, "1") in rs_seen,
                           "log capture on with root level %d set %s, config level %s, with and without a user handler" % (rl, where, cl))
+    for cname in ("stdout", "stderr", "logging"):
+        for pos in ("first", "middle", "last"):
+            ctx.guard("empty-%s-buffer@%s" % (cname, pos) in routes,
+                      "an executed %s scenario whose %s capture buffer stayed empty" % (pos, cname))
     for r in ("cap", "out", "err", "user", "drop", "cap?"):
         ctx.guard(r in routes, "marker route %r exercised" % r)
     for s in ("passed", "failed", "error", "hook_error", "skipped", "untested"):
